@@ -297,6 +297,7 @@ func (a *Analysis) lockDiscipline(rep *Report, g *guardedState, name string, fn 
 		}
 		rep.Ob("Q7-one-key-per-operation", name+":"+e.Mode, k == firstKey, a.P.Pos(e.Pos), "the operation accesses the registry under "+k+" here and under "+firstKey+" at "+firstKeyAt+": what it checks is not what it changes")
 	}
+	extraWritten := false
 	var events []*Event
 	inLoop := map[*Event]bool{}
 	var flat func(evs []*Event, loop bool)
@@ -359,9 +360,41 @@ func (a *Analysis) lockDiscipline(rep *Report, g *guardedState, name string, fn 
 				access(e, base, true, "write("+e.Mode+")")
 				keyed(e)
 			}
+		case EvCall:
+			// a concurrent container or pool of package sync / sync/atomic used by a registry operation (a sync.Map of
+			// recently looked-up services, say) is a second piece of registry state, exactly like an atomic word
+			if why := syncStateCall(e); why != "" {
+				// A side table is consistent with the map exactly when every change of it is made in the critical section
+				// that reads or changes the map entry it mirrors: entries are added while at least the shared lock is held
+				// (no writer can come between the map read and the fill), and taken out only under the exclusive lock.
+				// Reading it needs no lock (a hit is an entry the map held when it was filled and that no completed
+				// removal has taken out).
+				mode := ""
+				for _, h := range held {
+					if h == "W" || mode == "" {
+						mode = h
+					}
+				}
+				okCall := false
+				switch e.Callee.Name() {
+				case "Load", "Range":
+					okCall = strings.Contains(why, "sync.Map")
+				case "Store", "LoadOrStore", "Swap", "CompareAndSwap":
+					okCall = strings.Contains(why, "sync.Map") && mode != ""
+				case "Delete", "LoadAndDelete", "Clear", "CompareAndDelete":
+					okCall = strings.Contains(why, "sync.Map") && mode == "W"
+				}
+				rep.Ob("Q6-no-state-beside-the-map", name+":"+why, okCall, a.P.Pos(e.Pos), fmt.Sprintf("the operation calls %s (lock held: %q) – registry state beside the mutex-guarded map that is not changed in the same critical section as the map: a look-up can answer from a state no sequential order produces", why, mode))
+			}
 		case EvStore:
 			if base, ok := fieldBase(e.Dst, g.Struct, g.MapField); ok && stripCT(e.Dst).Op == "field" {
 				access(e, base, true, "replace-map")
+			}
+			// any other field of the registry object written by an operation is shared state too: only under the exclusive lock
+			if fb, fname, ok := otherRegistryField(e.Dst, g); ok {
+				h := held[fb]
+				rep.Ob("Q6-no-state-beside-the-map", name+":store:"+fname, h == "W", a.P.Pos(e.Pos), fmt.Sprintf("the operation writes the registry field %s without holding the exclusive lock of the same object (held: %q)", fname, h))
+				extraWritten = true
 			}
 			if e.Src != nil && mapEscapes(e.Src, mapVals) {
 				if _, own := fieldBase(e.Dst, g.Struct, g.MapField); !own {
@@ -373,6 +406,25 @@ func (a *Analysis) lockDiscipline(rep *Report, g *guardedState, name string, fn 
 	for i, r := range p.Ret {
 		if mapEscapes(r, mapVals) {
 			rep.Ob("Q4-map-does-not-escape", fmt.Sprintf("%s:ret%d", name, i), false, pos, "the registry map itself is returned: callers can touch it without the lock")
+		}
+	}
+	// a mutable field beside the map that an operation consults (a "last hit" kept in plain fields): every mention must
+	// lie inside the critical section, i.e. the path does nothing before it takes the lock
+	if fname := a.mentionsMutableRegistryField(p, g); fname != "" || extraWritten {
+		first := ""
+		for _, e := range events {
+			if e.Kind == EvPanicSite || e.Kind == EvLoadGlobal {
+				continue
+			}
+			if e.Kind == EvLock {
+				if _, ok := fieldBase(e.Recv, g.Struct, g.MuField); ok && (e.Mode == "Lock" || e.Mode == "RLock") {
+					first = "lock"
+				}
+			}
+			break
+		}
+		if fname != "" {
+			rep.Ob("Q6-no-state-beside-the-map", name+":reads:"+fname, first == "lock", pos, "the operation consults the registry field "+fname+", which operations also write, and does not take the lock first: it can see that field and the map in a combination no sequential order produces")
 		}
 	}
 	if !p.Panic {
@@ -1559,4 +1611,125 @@ func mapEscapes(v *Val, isMap func(*Val) bool) bool {
 		}
 	}
 	return false
+}
+
+
+// syncStateCall: the event is a call of a method or function of package sync or sync/atomic (other than the mutex and
+// Once operations the engine models as LOCK / ATOMIC events); returns its name.
+func syncStateCall(e *Event) string {
+	if e.Callee == nil || e.Callee.Pkg == nil && e.Callee.Object() == nil {
+		return ""
+	}
+	obj := e.Callee.Object()
+	if obj == nil || obj.Pkg() == nil {
+		return ""
+	}
+	switch obj.Pkg().Path() {
+	case "sync", "sync/atomic":
+		return FuncName(e.Callee)
+	}
+	return ""
+}
+
+// otherRegistryField: addr is a field of the registry struct other than its mutex and its map.
+func otherRegistryField(addr *Val, g *guardedState) (base string, name string, ok bool) {
+	v := stripCT(addr)
+	for v != nil && (v.Op == "index" || v.Op == "slice") {
+		v = stripCT(v.Args[0])
+	}
+	if v == nil || v.Op != "field" || v.ID == g.MapField || v.ID == g.MuField || len(v.Args) == 0 {
+		return "", "", false
+	}
+	b := v.Args[0]
+	if b.Type == nil {
+		return "", "", false
+	}
+	p, isP := b.Type.Underlying().(*types.Pointer)
+	if !isP {
+		return "", "", false
+	}
+	if n, isN := p.Elem().(*types.Named); !isN || n != g.Struct {
+		return "", "", false
+	}
+	if r := addrRoot(b); r != nil && r.Op == "alloc" {
+		return "", "", false // an object made on this path: nobody else sees it yet
+	}
+	return b.Key(), v.Name, true
+}
+
+// mentionsMutableRegistryField: a value of the path (result, condition, event operand) reads a field of the registry
+// struct other than mutex and map that some non-start-up function of the module stores to.
+func (a *Analysis) mentionsMutableRegistryField(p *Path, g *guardedState) string {
+	mut := a.mutableRegistryFields(g)
+	if len(mut) == 0 {
+		return ""
+	}
+	found := ""
+	look := func(v *Val) {
+		if v == nil || found != "" {
+			return
+		}
+		v.Walk(func(x *Val) bool {
+			if found != "" {
+				return false
+			}
+			if x.Op == "init" && len(x.Args) == 1 {
+				if f := stripCT(x.Args[0]); f != nil && f.Op == "field" && mut[f.ID] && len(f.Args) > 0 && f.Args[0].Type != nil {
+					if pt, ok := f.Args[0].Type.Underlying().(*types.Pointer); ok {
+						if n, ok := pt.Elem().(*types.Named); ok && n == g.Struct {
+							found = f.Name
+							return false
+						}
+					}
+				}
+			}
+			return true
+		})
+	}
+	for _, r := range p.Ret {
+		look(r)
+	}
+	for _, c := range p.Conds {
+		look(c.V)
+	}
+	walkEvents(p.Events, func(e *Event, _ int) {
+		look(e.Src)
+		look(e.Recv)
+		for _, x := range e.Args {
+			look(x)
+		}
+	})
+	return found
+}
+
+// mutableRegistryFields: indices of the registry struct's fields (other than mutex and map) that a function other than
+// an init function stores to through a FieldAddr.
+func (a *Analysis) mutableRegistryFields(g *guardedState) map[int]bool {
+	out := map[int]bool{}
+	for fn := range a.P.AllFuncs {
+		if !a.P.InModule(fn) || fn.Blocks == nil || a.P.IsTestFile(fn.Pos()) || isInitFunc(fn) {
+			continue
+		}
+		for _, b := range fn.Blocks {
+			for _, in := range b.Instrs {
+				fa, ok := in.(*ssa.FieldAddr)
+				if !ok || fa.Field == g.MapField || fa.Field == g.MuField {
+					continue
+				}
+				pt, ok := fa.X.Type().Underlying().(*types.Pointer)
+				if !ok {
+					continue
+				}
+				if n, ok := pt.Elem().(*types.Named); !ok || n != g.Struct {
+					continue
+				}
+				for _, ref := range *fa.Referrers() {
+					if st, ok := ref.(*ssa.Store); ok && st.Addr == fa {
+						out[fa.Field] = true
+					}
+				}
+			}
+		}
+	}
+	return out
 }
